@@ -49,6 +49,10 @@ CLAIMS = {
   text="Proof of the store-level scan cursor: findCoefficient returns the smallest coefficient present that is greater than the given one and an error iff none is (map iteration + sort.Slice ordered by the verified less contract + scan loop, with invariants); one step of KVStore.Scan/ScanRegexMatch (scanCommon) hands back a cursor that addresses an existing table, never jumps over a table that has not been scanned (for every layout of coefficients with holes), never moves backwards, and reports the end only when no later table exists; unsigned cursor arithmetic is exact (no wrap) for table sizes up to 2^32 and coefficients below 2^30.",
   note="table.Scan/ScanRegexMatch (the roaring-bitmap iterator loop inside one table) are trusted for the range of the cursor they return; that every present key is handed to the callback exactly once within a table, the partition-level iterator of DMap.Scan and the cluster iterator are not yet under contract; concurrent writers during a scan are not modelled.",
   ref="DESIGN.md §4 C12, §9"),
+ "C14": dict(
+  text="Proof of the counting and matching obligations of PUBLISH: PubSub.Publish returns exactly the number of messages it wrote to subscriber connections (ghost delivery counter; both Ascend passes modelled as loops over the function literals, with invariants), writes a pmessage only for a pattern that matches the channel and a message only to entries of exactly this channel; publishInternalCommandHandler replies with the number of local deliveries; publishCommandHandler replies with local deliveries plus the sum of the counts reported by every other member (loop invariant over the member list).",
+  note="The subscription tree is a ghost set: the ORDER in which btree.Ascend yields (which makes the first pass stop at the right place and visit every entry of the channel) is not modelled, so 'every matching subscriber receives it' is not decided, only 'nothing else is delivered and the count is right'; subscribe/unsubscribe bookkeeping, PUBSUB CHANNELS/NUMSUB/NUMPAT (distinct counting needs set cardinality, outside this encoding), ordering per publisher and concurrency are not decided; go-redis IntCmd.Result and redcon.Conn.WriteInt carry assumed contracts; fewer than 2^62 deliveries and 2^16 members are assumed.",
+  ref="DESIGN.md §4 C14, §9"),
 }
 
 NA_DEFAULT = "contract-decidable core not yet under contract in this tree (engine and storage layers first); no other technique substituted"
